@@ -820,6 +820,17 @@ Proof.
   - inversion H; subst. splits; auto.
 Qed.
 
+Lemma scale_sites_spec : forall ss l l', scale_sites ss l = Some l' -> FlagsOK l ->
+  FlagsOK l' /\ length l' = length l /\ (forall k, ~ In k ss -> get l' k = get l k).
+Proof.
+  induction ss; simpl; intros l l' H F.
+  - inversion H; subst. splits; auto.
+  - destruct (a <? length l) eqn:E; try discriminate.
+    destruct (IHss _ _ H (FlagsOK_setS _ _ _ F site_ok_blank)) as (A & B & C).
+    rewrite length_setS in B. splits; auto.
+    intros k K. rewrite C by tauto. apply get_setS_neq. intro; subst; tauto.
+Qed.
+
 (* --------------------------------------------------------------- one step *)
 Theorem step_flags : forall o c st st', step o c st = Some st' -> FlagsOK (sites st) -> FlagsOK (sites st').
 Proof.
@@ -835,6 +846,9 @@ Proof.
   - apply (measure_spec _ _ _ _ _ H F).
   - apply dropped_same in H. subst st'. destruct dec; auto. rewrite decorated_sites. auto.
   - apply (local_exp_many_pres _ _ _ _ _ H F).
+  - destruct (scale_sites ss (sites st)) as [l|] eqn:SC; simpl in H; try discriminate.
+    inversion H; subst; simpl. apply (scale_sites_spec _ _ _ SC F).
+  - inversion H; subst; simpl. auto.
 Qed.
 
 (* the domain of the record theorem: every operation of the alphabet, called
@@ -854,6 +868,11 @@ Definition good (st : mps) (o : op) : Prop :=
   | OMeasure s _ => s < L
   | ODroppedCopy _ _ _ => True
   | OLocalExpMany ws _ => Forall (fun w => fst w < L /\ snd w < L) ws
+  (* rescaling does not take the record: it keeps a pair record true only if every
+     rescaled site lies inside the recorded range; otherwise the caller has to start
+     a fresh record (OSetRecord with anything but a pair) *)
+  | OScale ss => match rec st with RSome a b => Forall (fun s => a <= s /\ s <= b) ss | _ => True end
+  | OSetRecord r => match r with RSome _ _ => False | _ => True end
   end.
 
 Theorem step_inv : forall o c st st', Inv st -> good st o -> calc_ok (length (sites st)) c ->
@@ -872,6 +891,15 @@ Proof.
   - apply (measure_spec _ _ _ _ _ H F); auto.
   - apply dropped_same in H. subst st'. destruct dec; auto. apply decorated_RecOK. auto.
   - apply (local_exp_many_pres _ _ _ _ _ H F); auto.
+  - destruct (scale_sites ss (sites st)) as [l|] eqn:SC; simpl in H; try discriminate.
+    inversion H; subst; clear H. destruct (scale_sites_spec _ _ _ SC F) as (A & B & C).
+    unfold RecOK in *; simpl. destruct (rec st); auto.
+    destruct RO as (S1 & S2 & S3 & S4). unfold Sound. rewrite B. splits; auto.
+    + intros k K. rewrite C. apply S3; auto.
+      intro IN. rewrite Forall_forall in G. apply G in IN. lia.
+    + intros k K KL. rewrite C. apply S4; auto.
+      intro IN. rewrite Forall_forall in G. apply G in IN. lia.
+  - inversion H; subst; clear H. unfold RecOK; simpl. destruct r; auto. contradiction.
 Qed.
 
 (* ---------------------------------------------------------- all histories *)
@@ -980,14 +1008,18 @@ Definition good_b (st : mps) (o : op) : bool :=
   | OMeasure s _ => s <? L
   | ODroppedCopy _ _ _ => true
   | OLocalExpMany ws _ => forallb (fun w => (fst w <? L) && (snd w <? L)) ws
+  | OScale ss => match rec st with RSome a b => forallb (fun s => (a <=? s) && (s <=? b)) ss | _ => true end
+  | OSetRecord r => match r with RSome _ _ => false | _ => true end
   end.
 
 Lemma good_b_sound : forall st o, good_b st o = true -> good st o.
 Proof.
   intros st o H.
-  destruct o as [dec w1 w2 | i | i cz | i j ab | i f ab | i j sb | w1 w2 rev | i u | s rm | dec w1 w2 | ws ip];
+  destruct o as [dec w1 w2 | i | i cz | i j ab | i f ab | i j sb | w1 w2 rev | i u | s rm | dec w1 w2 | ws ip | ss | r];
     unfold good_b in H; unfold good; cbv zeta in *; auto; try lia.
-  rewrite forallb_forall in H. apply Forall_forall. intros w W. apply H in W. lia.
+  - rewrite forallb_forall in H. apply Forall_forall. intros w W. apply H in W. lia.
+  - destruct (rec st); auto. rewrite forallb_forall in H. apply Forall_forall. intros w W. apply H in W. lia.
+  - destruct r; auto. discriminate.
 Qed.
 
 Definition calc_ok_b (L : nat) (c : nat * nat) : bool := (fst c <=? snd c) && (snd c <? L).
@@ -1023,5 +1055,5 @@ Definition demo_ops : list (op * (nat * nat)) :=
   [ (OGateAutoSwap 4 1 true, (0, 0)); (OSwap 2 3 ADefault, (0, 0)); (OSwap 0 3 ABoth, (0, 0));
     (OGate1 0 false, (0, 0)); (OGateSubMPO 1 3 true, (0, 0)); (OCompressSite 1 false, (0, 0));
     (ODroppedCopy false 0 0, (0, 0)); (OMeasure 4 true, (0, 0)); (OSwapTo 3 0 ABoth, (0, 0));
-    (OGate1 3 true, (0, 0)); (OSingVals 2, (0, 0)); (OLocalExpMany [(3, 3); (0, 1)] true, (0, 0)) ].
+    (OGate1 3 true, (0, 0)); (OSingVals 2, (0, 0)); (OScale [2], (0, 0)); (OLocalExpMany [(3, 3); (0, 1)] true, (0, 0)) ].
 Definition demo_start : mps := mkM [blank; blank; blank; blank; blank] RUnset.
